@@ -105,6 +105,27 @@ def gen_universe_spec(
     }
 
 
+def counting_destination_class(base):
+    """A caller-defined destination *with a state*: an ideal sink that integrates the time
+    it has been open.  ``Network.step`` initialises it (it initialises every element) but
+    steps only origins and links, so the caller has to step it itself before compiling."""
+
+    def init_vars(self, init_conditions=None, engine=None, **_):
+        if engine is None:
+            from sym_metanet.engines.core import get_current_engine
+
+            engine = get_current_engine()
+        self.next_states = None
+        self.states = {
+            "n": engine.var(f"n_{self.name}") if init_conditions is None or "n" not in init_conditions else init_conditions["n"]
+        }
+
+    def step_dynamics(self, net=None, T=None, engine=None, **_):
+        return {"n": self.states["n"] + T}
+
+    return type("CountingDestination", (base,), {"_states": {"n"}, "init_vars": init_vars, "step_dynamics": step_dynamics})
+
+
 class Universe:
     """Fresh library objects for a spec.  ``obj(ref)`` / ``label(obj)`` translate."""
 
@@ -163,7 +184,10 @@ class Universe:
                 o = cls(name=s["name"])
             self._put(f"o{i}", o)
         for i, s in enumerate(spec["dests"]):
-            self._put(f"d{i}", getattr(M_, s["cls"])(name=s["name"]))
+            if s["cls"] == "CountingDestination":
+                self._put(f"d{i}", counting_destination_class(M_.Destination)(name=s["name"]))
+            else:
+                self._put(f"d{i}", getattr(M_, s["cls"])(name=s["name"]))
         self.junk = {}
         for i, s in enumerate(spec.get("junk", [])):
             v = tuple(s) if isinstance(s, list) else s
